@@ -366,6 +366,7 @@ const (
 	atomNonVoid  atomKind = "NonVoid"
 	atomArity    atomKind = "Arity"
 	atomTag      atomKind = "Tag"
+	atomSingle   atomKind = "Single" // not the pseudo type of a call with several results
 )
 
 type guardAtom struct {
@@ -710,6 +711,10 @@ func (pf *ParserFacts) classifyCond(c ssa.Value, d *derivation, depth int) (atom
 			for _, side := range []ssa.Value{x.X, x.Y} {
 				if k, ok := side.(*ssa.Const); ok && k.Value != nil && k.Value.Kind() == constant.String && constant.StringVal(k.Value) == "unknown" {
 					return atomNonVoid, !eq, true
+				}
+				// comparison against the pseudo type of a call with several results
+				if k, ok := side.(*ssa.Const); ok && k.Value != nil && k.Value.Kind() == constant.String && constant.StringVal(k.Value) == "multiple" {
+					return atomSingle, !eq, true
 				}
 			}
 			return atomDataType, eq, x.Op == token.EQL || x.Op == token.NEQ
